@@ -60,6 +60,8 @@ def run(ctx):
                                   {"scenario": s, "tick": ti, "combo": [hc, hk], "expected": exp, "observed": obs, "unit_s": mfcheck.UNIT})
                     break
     dec = decimal_part(ctx)
+    if not ctx.quick:
+        dec["repository_tests"] = repo_tests_part(ctx)      # about a minute: thorough tier only
     nontriv = sum(1 for s in scns if any(len(mfcheck.pproj(mfcheck.expected_ops(tk))) >= 2 for tk in s["ticks"]))
     cov = {"states": stats["states"], "transitions": stats["transitions"],
            "traces_validated_against_impl": len(scns) * 3,
@@ -144,3 +146,54 @@ def replay(ctx, path):
     pres = mfcheck.replay_python(ctx, [s])
     print(json.dumps(pres[0], default=str)[:1000])
     return 1 if pres[0]["mismatch"] else 0
+
+
+
+def repo_tests_part(ctx):
+    """(c) the repository's own runtime tests (hypothesis-driven, real compiled filters) run under a recording plugin; every tick they
+    execute is turned into travel events and validated by TLC against PlanOK (MF_Trace.tla); the held time must be the last reading's."""
+    import os
+    import subprocess
+    import trace
+    rec = os.path.join(ctx.work, "repo_ticks.jsonl")
+    env = dict(os.environ)
+    env["VERIF_RECORD_FILE"] = rec
+    env["PYTHONPATH"] = "/verif/harness"
+    env.pop("FORMAK_VERIF", None)
+    repo = os.environ.get("VERIF_REPO", "/repo")
+    tests = ["py/test/unit/runtime", "featuretests/managed_filter/tick_interface_test.py"] if not ctx.quick else ["py/test/unit/runtime/ManagedFilter_test.py"]
+    p = subprocess.run(["/venv/bin/python", "-m", "pytest", "-q", "-p", "no:cacheprovider", "-p", "repo_recorder", "--timeout=900"] + tests,
+                       cwd=repo, env=env, capture_output=True, text=True, timeout=1800)
+    ticks = []
+    if os.path.exists(rec):
+        for line in open(rec):
+            ticks.append(json.loads(line))
+    traces, keep = [], []
+    for t in ticks:
+        if t["error"]:
+            continue
+        ev = mfcheck.travel_events([tuple(o) for o in t["ops"]], t["t0"], t["readings"], 0, t["out"], t["max_dt"])
+        if ev is None:
+            ev = [{"dir": 9, "steps": [], "resid_ps": 10 ** 9, "start": t["t0"], "target": t["out"], "dts": "one sensor update per reading expected"}]
+        # hold at the last reading
+        exp_held = t["readings"][-1] if t["readings"] else t["t0"]
+        if t["held_after"] != exp_held:
+            ev.append({"dir": 9, "steps": [], "resid_ps": 10 ** 9, "start": t["t0"], "target": exp_held, "dts": "held time %r" % t["held_after"]})
+        traces.append([{k: e[k] for k in ("dir", "steps", "resid_ps")} for e in ev])
+        keep.append((t, ev))
+    # de-duplicate identical traces (hypothesis repeats examples), keep TLC input small
+    seen, utr, ukeep = set(), [], []
+    for tr, k in zip(traces, keep):
+        h = json.dumps(tr, sort_keys=True)
+        if h not in seen:
+            seen.add(h)
+            utr.append(tr)
+            ukeep.append(k)
+    verdicts, tres = trace.validate("MF_Trace", utr)
+    for (t, ev), v in zip(ukeep, verdicts):
+        if v is not None:
+            e = ev[v]
+            ctx.violation("repo-tests:steps", "%s: travel %s -> %s with max_dt %s issued %s" % (t["test"][:80], e.get("start"), e.get("target"), t["max_dt"], e.get("dts")),
+                          {"tick": t, "travel": e})
+    return {"pytest_exit": p.returncode, "pytest_tail": p.stdout.strip().splitlines()[-1:] if p.stdout.strip() else [], "ticks_recorded": len(ticks),
+            "distinct_travel_traces_validated": len(utr)}
